@@ -164,14 +164,6 @@ func c18Prune(m map[string][]string) map[string][]string {
 	return res
 }
 
-func c18Copy(m map[string][]string) map[string][]string {
-	res := map[string][]string{}
-	for k, v := range m {
-		res[k] = append([]string{}, v...)
-	}
-	return res
-}
-
 func c18MapEq(a, b map[string][]string) bool {
 	if len(a) != len(b) {
 		return false
@@ -234,33 +226,25 @@ type c18HdrScn struct {
 	Pre []c18Entry `json:"pre"`
 	Exp []c18Entry `json:"exp"`
 	Rt  []c18Entry `json:"rt"`
-	Alt []c18Entry `json:"alt"`
 }
 
 type c18HdrObs struct {
-	Main     map[string][]string // result of the function under test
-	Dup      bool
-	SrcAfter map[string][]string // md2h: source metadata after the call
-	SrcSame  bool                // list-sourced ops: the source header list is untouched
-	Rt       map[string][]string // round trip through the inverse real function
-	RtDup    bool
+	Main  map[string][]string // result of the function under test
+	Dup   bool
+	Rt    map[string][]string // round trip through the inverse real function
+	RtDup bool
 }
 
 func c18RunHdr(s *c18HdrScn) c18HdrObs {
 	var o c18HdrObs
-	o.SrcSame = true
 	switch s.Op {
 	case "h2md":
-		src := c18Headers(s.H)
-		keep := c18Headers(s.H)
-		md := ConvertProtoHeaderToMetadata(src)
+		md := ConvertProtoHeaderToMetadata(c18Headers(s.H))
 		o.Main = c18Prune(md)
-		o.SrcSame = c18HeadersEqual(src, keep)
 		back, dup := c18HdrListMap(ConvertMetadataToProtoHeader(md))
 		o.Rt, o.RtDup = c18Prune(back), dup
 	case "out":
 		src := c18Headers(s.H)
-		keep := c18Headers(s.H)
 		ctx := context.Background()
 		if len(s.Pre) > 0 {
 			ctx = metadata.NewOutgoingContext(ctx, metadata.MD(c18Map(s.Pre, "", false)))
@@ -268,19 +252,15 @@ func c18RunHdr(s *c18HdrScn) c18HdrObs {
 		ctx = AppendToOutgoingContext(ctx, src)
 		md, _ := metadata.FromOutgoingContext(ctx)
 		o.Main = c18Prune(md)
-		o.SrcSame = c18HeadersEqual(src, keep)
 	case "md2h":
-		md := metadata.MD(c18Map(s.H, "", false))
-		keep := c18Copy(md)
-		res, dup := c18HdrListMap(ConvertMetadataToProtoHeader(md))
+		// (every metadata value is converted exactly once: what the conversion does to its
+		// source is not part of the property)
+		res, dup := c18HdrListMap(ConvertMetadataToProtoHeader(metadata.MD(c18Map(s.H, "", false))))
 		o.Main, o.Dup = res, dup
-		o.SrcAfter = c18Copy(md)
-		o.SrcSame = c18MapEq(md, keep)
-		// back through the inverse, from a pristine copy so that a mutated source does not mask it
-		o.Rt = c18Prune(ConvertProtoHeaderToMetadata(ConvertMetadataToProtoHeader(metadata.MD(keep))))
+		// back through the inverse, from a fresh rendering of the same metadata
+		o.Rt = c18Prune(ConvertProtoHeaderToMetadata(ConvertMetadataToProtoHeader(metadata.MD(c18Map(s.H, "", false)))))
 	case "addh", "addt":
 		src := c18Headers(s.H)
-		keep := c18Headers(s.H)
 		dest := http.Header(c18Map(s.Pre, "", false))
 		if s.Op == "addh" {
 			internal.AddHeaders(src, dest)
@@ -288,33 +268,17 @@ func c18RunHdr(s *c18HdrScn) c18HdrObs {
 			internal.AddTrailers(src, dest)
 		}
 		o.Main = c18Prune(dest)
-		o.SrcSame = c18HeadersEqual(src, keep)
 		if s.Op == "addh" {
 			back, dup := c18HdrListMap(internal.ConvertToProtoHeader(dest))
 			o.Rt, o.RtDup = c18Prune(back), dup
 		}
 	case "map2h":
-		m := c18Map(s.H, "", false)
-		keep := c18Copy(m)
-		res, dup := c18HdrListMap(internal.ConvertToProtoHeader(m))
+		res, dup := c18HdrListMap(internal.ConvertToProtoHeader(c18Map(s.H, "", false)))
 		o.Main, o.Dup = res, dup
-		o.SrcSame = c18MapEq(m, keep)
 	default:
 		panic("c18: unknown header op " + s.Op)
 	}
 	return o
-}
-
-func c18HeadersEqual(a, b []*conformancev1.Header) bool {
-	if len(a) != len(b) {
-		return false
-	}
-	for i := range a {
-		if !proto.Equal(a[i], b[i]) {
-			return false
-		}
-	}
-	return true
 }
 
 var c18HdrFn = map[string]string{"h2md": "ConvertProtoHeaderToMetadata", "out": "AppendToOutgoingContext",
@@ -334,22 +298,12 @@ func c18CheckHdr(s *c18HdrScn, raw json.RawMessage) []c18Mismatch {
 		res = append(res, c18Mismatch{Area: "hdr", Op: s.Op, Fn: fn, Class: class, Obs: c18Show(obs), Exp: c18Show(want), Note: note, Scn: raw, Repro: 1})
 	}
 	if !c18MapEq(o.Main, exp) || o.Dup {
-		class := "other"
-		if (s.Op == "h2md" || s.Op == "out") && c18MapEq(o.Main, c18Map(s.Alt, prefix, true)) {
-			class = map[string]string{"h2md": "repeated-key-last-wins", "out": "bin-not-decoded"}[s.Op]
-		}
+		class := "result"
 		note := ""
 		if o.Dup {
 			note = "a key occurs in more than one entry"
 		}
 		add(c18HdrFn[s.Op], class, o.Main, exp, note)
-	}
-	if !o.SrcSame {
-		class := "source-modified"
-		if s.Op == "md2h" && c18MapEq(c18Prune(o.SrcAfter), c18Map(s.Alt, "", true)) {
-			class = "source-bin-values-encoded-in-place"
-		}
-		add(c18HdrFn[s.Op], class, o.SrcAfter, c18Map(s.H, "", false), "the conversion changed its input")
 	}
 	if o.Rt != nil {
 		want := c18Map(s.Rt, "", true)
@@ -364,7 +318,7 @@ func c18CheckHdr(s *c18HdrScn, raw json.RawMessage) []c18Mismatch {
 	for i := range res {
 		for k := 0; k < 2; k++ {
 			o2 := c18RunHdr(s)
-			if !c18MapEq(o2.Main, exp) || !o2.SrcSame || o2.Dup || (o2.Rt != nil && !c18MapEq(o2.Rt, c18Map(s.Rt, "", true))) {
+			if !c18MapEq(o2.Main, exp) || o2.Dup || (o2.Rt != nil && !c18MapEq(o2.Rt, c18Map(s.Rt, "", true))) {
 				res[i].Repro++
 			}
 		}
@@ -576,7 +530,6 @@ type c18ErrObs struct {
 func c18RunErr(s *c18ErrScn) []c18ErrObs {
 	var res []c18ErrObs
 	pe := c18ProtoErr(&s.E)
-	keep := proto.Clone(pe)
 	// proto -> connect -> proto
 	ce := internal.ConvertProtoToConnectError(pe)
 	res = append(res, c18ErrObs{"ConvertProtoToConnectError", c18ConcOfConnect(ce), c18ConcOfSpec(&s.C, false)})
@@ -610,9 +563,6 @@ func c18RunErr(s *c18ErrScn) []c18ErrObs {
 			native = status.FromProto(sp)
 		}
 		res = append(res, c18ErrObs{"ConvertGrpcToProtoError(native)", c18ConcOfProto(ConvertGrpcToProtoError(native.Err())), c18ConcOfSpec(&s.PS, true)})
-	}
-	if !proto.Equal(pe, keep) {
-		res = append(res, c18ErrObs{"(source error modified)", c18ConcOfProto(pe), c18ConcOfProto(keep.(*conformancev1.Error))})
 	}
 	return res
 }
@@ -713,9 +663,8 @@ type c18CodecScn struct {
 		Pos  int    `json:"pos"`
 		Kind string `json:"kind"`
 	} `json:"inj"`
-	Wire    c18Node `json:"wire"`
-	Exp     string  `json:"exp"`
-	TopOnly bool    `json:"top_only"`
+	Wire c18Node `json:"wire"`
+	Exp  string  `json:"exp"`
 }
 
 var c18TopType = map[string]func() proto.Message{
@@ -974,7 +923,7 @@ func c18RunCodec(s *c18CodecScn) (res []c18CodecRes, machinery error, evals int)
 	if s.Exp == "reject" {
 		if err == nil {
 			class := "unknown-field-accepted"
-			if s.Codec == "proto" && !s.TopOnly {
+			if len(s.Inj.P) > 0 {
 				class = "nested-unknown-field-accepted"
 			}
 			fate := "dropped"
